@@ -2,6 +2,16 @@
 """Write /verif/seeded/<name>/meta.json for every seeded change from its confirmation.txt."""
 import json, os, re, glob
 NEEDS = {
+ "C02c_magnitude_normalisation_shadows_phi": "largest |W*Phi| entry finite and above sqrt(MAX) (1.3e154; f32 1.8e19) or below sqrt(MIN_POSITIVE): the matrix is normalised before the SVD, coefficients are un-scaled, but the residual is formed with the normalised matrix (shadowed binding)",
+ "C03c_parallel_jacobian_block_index": "parallel flavour on a pool of t workers with 2 <= t < P and ceil(P/t) not dividing P (P=3, t=2): the trailing block of Jacobian columns holds the derivative of an earlier parameter",
+ "C04c_residuals_from_full_projector_in_set_params": "a singular value of W*Phi(alpha_hat) at or below epsilon: residuals Y_w - U U^T Y_w project out truncated directions too, the coefficients do not",
+ "C07c_par_solve_drops_trailing_rhs_blocks": "mrhs_parallel, S/T >= 16 and S % T != 0 for the ambient pool size T (S >= 32): the last S % T coefficient columns stay zero",
+ "C09c_parallel_jacobian_fold_loses_derivative_error": "parallel flavour, a failure of eval_partial_deriv(k) whose column shares a rayon leaf job with a later succeeding column (1 worker and P=3, k=1): jacobian() returns Some, fit returns Ok",
+ "C10c_truncation_threshold_ratchets_up": "an earlier set_params at an alpha where cond(W*Phi) > 1/(max(m,n) eps) and sigma_max is large, then an alpha with a singular value in (eps, max(m,n) eps sigma_max_earlier]: the raised threshold persists in the problem",
+ "C11c_map_init_scratch_accumulates": "parallel flavour with more Jacobian columns than rayon splits into single-column leaves (T=1: P>=3, T=2-3: P>=5, T=4-7: P>=9): gemm with beta=1 accumulates onto the worker's scratch",
+ "C15c_fast_path_skips_arity_check": "a function whose parameter list equals the complete model parameter list in model order (always for one-parameter models) together with a function or derivative of the wrong arity: build() returns Ok, evaluation panics",
+ "C16c_dependency_mask_saturates_vs_wraps": "a builder-made model with more than 64 parameters: eval_partial_deriv(k) for k >= 64 returns a zero column (mask saturates at the builder, wraps at the query)",
+ "C17c_initial_parameters_unchecked_after_function": "initial_parameters with a wrong-length vector directly after function()/partial_deriv(): accepted by build(); evaluation panics (debug) or silently uses a prefix (release)",
  "C05b_parallel_jacobian_block_start_index": "parallel flavour inside a rayon pool of T workers with P > ceil(P/T) and P % ceil(P/T) != 0 (e.g. P=3, T=2): the trailing block of Jacobian columns is filled with the derivative of the wrong parameter",
  "C06b_svd_threshold_scaled_by_max_weight": "non-unit weights and a singular value of W*Phi in (eps, eps*max|w|] (user epsilon, nearly collinear basis functions): weighted problem truncates, row-scaled twin does not",
  "C08b_statistics_unguarded_svd_nonfinite_H": "fit_with_statistics on a fit that ends with ResidualsZero at the start (all-zero data) for a model whose derivative is non-finite there: nalgebra's unguarded SVD of H panics (2 columns) or never returns (>= 3 columns)",
